@@ -173,7 +173,14 @@ func c12PairPool() [][2]*ref.Expr {
 		{s("2"), s("x")},
 		{s("ab"), ref.Call("lower", s("X"))},
 		{s("2"), ref.Call("str", ref.Bin("*", ref.N(1), ref.N(1)))},
+		// the same value text on two pairs, reading `key`
+		{s("a"), c12KeyDependent()},
+		{s("ab"), c12KeyDependent()},
 	}
+}
+
+func c12KeyDependent() *ref.Expr {
+	return ref.Bin("+", ref.Call("lower", ref.Key()), ref.S("!"))
 }
 
 func c12FailingPairs() [][2]*ref.Expr {
@@ -196,7 +203,7 @@ func c12RemovePool() []*ref.Expr {
 // history alphabet used to generate the state space
 func historyStmts() []*wstmt {
 	var out []*wstmt
-	for _, p := range c12PairPool() {
+	for _, p := range c12PairPool()[:10] { // (the state space stays over values {1, x})
 		out = append(out, &wstmt{Kind: "put", Pairs: [][2]*ref.Expr{p}})
 	}
 	for _, k := range c12RemovePool()[:6] {
@@ -697,7 +704,7 @@ func (c12) Info() core.Info {
 		ID:    "C12",
 		Title: "PUT and REMOVE apply exactly the stated writes, once, all-or-nothing",
 		Level: "model_checking",
-		Rule: "explicit-state search over the same 81-state space as C11: transitions = long `put` / `remove` lists (4..40 elements with duplicate keys in three patterns) and `put` with every list of 1..3 pairs from a pool of 10 pair expressions (literals, duplicate keys, concatenated and numeric keys, values that read `key`, function calls) plus 3 failing ones at every position, `remove` with every list of 1..3 keys from a pool of 7 (one failing), each under every poll word of length 1..4 over {Next,Batch} (quick: length <= 3 for 3-element lists) at batch sizes {1,32}, plus statically forbidden forms; every transition runs on the real plan over a clone of the state. Oracle: post-state = model (later duplicate wins; value sees its own key); the pairs/keys carried by the mutating calls, in call order, are exactly the evaluated list (each stated write once); no write on evaluation failure; no storage call and no row on later polls; a follow-up `select * where key = k` observes each write; forbidden forms are rejected with an empty call log. " +
+		Rule: "explicit-state search over the same 81-state space as C11: transitions = long `put` / `remove` lists (4..40 elements with duplicate keys in three patterns) and `put` with every list of 1..3 pairs from a pool of 12 pair expressions (literals, duplicate keys, concatenated and numeric keys, values that read `key`, function calls) plus 3 failing ones at every position, `remove` with every list of 1..3 keys from a pool of 7 (one failing), each under every poll word of length 1..4 over {Next,Batch} (quick: length <= 3 for 3-element lists) at batch sizes {1,32}, plus statically forbidden forms; every transition runs on the real plan over a clone of the state. Oracle: post-state = model (later duplicate wins; value sees its own key); the pairs/keys carried by the mutating calls, in call order, are exactly the evaluated list (each stated write once); no write on evaluation failure; no storage call and no row on later polls; a follow-up `select * where key = k` observes each write; forbidden forms are rejected with an empty call log. " +
 			"Non-trivial: the statement changes the state or fails at evaluation. Distinct: (state, statement, B, polls).",
 		Assumptions:      []string{"whether writes travel as Put or BatchPut is not prescribed (the property says 'exactly once')", "numbers written by PUT are compared as decimal integers only (no float rendering is documented)"},
 		CrashIsViolation: true,
